@@ -58,7 +58,10 @@ def judge_c08(rec):
     if live(rec.pre) != live(rec.post) or d0 != d1:
         return [V("C08", "violated", "live-set-changed", "", cell=cell, **sig)]
     e = ref.maxdiff(r0, r1)
-    if e > S.EXACT_TOL:
+    # a block whose purity deficit lies between 1e-9 and 1e-4 sits on the library's documented contraction tolerance
+    # (1e-6 on Tr rho^2): contracting it may legitimately move the state by up to ~1e-6
+    tol = 2e-6 if "edge" in cls else S.EXACT_TOL
+    if e > tol:
         out.append(V("C08", "violated", "state-changed", f"{st['k']}: maxabs={e:.3g}", cell=cell, **sig))
     # level rules per addressed block
     try:
